@@ -12,6 +12,12 @@ Binding C: TLC-simulated behaviours (insertion order + history of set-parameter 
       product rules must hold.
 Binding A: component weighting (cross-section x mixing ratio; both partners and density^2 for CIA),
       zero-abundance neutrality, proportionality, all insertion orders.
+Spec: spec/SourceLayers.tla (round 4): WHERE a component has opacity (per layer: exactly none | some) and HOW the
+      molecular absorption is served (cross-sections | correlated-k) as dimensions of LayerByLayer,
+      ProductOverSources (every list order), OrderFree, ProductOverComponents, ZeroNeutral; design variants
+      Guard = tangent | top and KAvg = total are refuted.  The exported input classes are realised on a real
+      non-isothermal 6-layer model (fx_c03layers.py) in every list order; the harness evaluator of the documented
+      formula is validated against the exported exact values first.  all_sources / stored_table run in both modes.
 """
 import itertools
 import math
@@ -23,6 +29,7 @@ from ..core import Machinery, close
 from ..fixtures import LayerOpacity, reset_caches
 from ..fx_model import FixtureCIA, make_transmission, chord_table, tau_layers
 from .. import core
+from .. import fx_c03layers as fxl
 
 WN = np.array([800.0, 1600.0, 2400.0, 3200.0, 4000.0])
 NL = 6
@@ -420,7 +427,21 @@ def build_full(added, params):
 FULLNAME = dict(abs='Absorption', cia2='CIA', ray='Rayleigh', hm='HydrogenIon', cloud='SimpleClouds', flat='Mie', lee='Mie')
 
 
-def all_sources(ctx, nsub, nperm):
+def all_sources(ctx, nsub, nperm, mode='xsec', kname=None):
+    """mode 'ktables': the molecular absorption is served from correlated-k tables (fx_c03layers.OpacityEnv); every
+    clause is the same, except that the product over the MOLECULES of the absorption holds for degenerate tables only
+    (SourceLayers.ProductOverComponents)."""
+    if mode == 'ktables':
+        env = fxl.OpacityEnv()
+        try:
+            env.enter('ktables', kname)
+            return _all_sources(ctx, nsub, nperm, 'k:%s:' % kname, kname == 'degenerate', dict(opacity='ktables', kname=kname))
+        finally:
+            env.leave()
+    return _all_sources(ctx, nsub, nperm, '', True, {})
+
+
+def _all_sources(ctx, nsub, nperm, pre, abs_components, extra):
     rng = random.Random(ctx.seed * 7919 + 3)
     params = dict(cloudP=3e4, mix=MIX[0], T=2500.0, hazemix=3e-27)
     alone = {}
@@ -438,8 +459,8 @@ def all_sources(ctx, nsub, nperm):
         subsets.append(rng.sample(ALLK, k))
     subsets = [[k for k in sub if not (k == 'lee' and 'flat' in sub)] for sub in subsets]
     for sub in subsets:
-        vec = dict(full=True, added=sub)
-        tag = '+'.join(sorted(sub))
+        vec = dict(full=True, added=sub, **extra)
+        tag = pre + '+'.join(sorted(sub))
         try:
             m = build_full(sub, params)
             T = np.asarray(m.model()[2], dtype=float)
@@ -458,14 +479,18 @@ def all_sources(ctx, nsub, nperm):
             for k in sub:
                 n = FULLNAME[k]
                 if n not in mf:
-                    ctx.verdict('every_source_once', False, cls='full:' + n, detail='%s missing from model_full_contrib()' % n, vector=vec)
+                    ctx.verdict('every_source_once', False, cls='full:' + pre + n, detail='%s missing from model_full_contrib()' % n, vector=vec)
                     continue
                 pc = np.prod([a for _, a in mf[n]], axis=0)
                 ncomp = len(mf[n])
-                ctx.verdict('product_over_components', same(pc, alone[k]), cls='components:%s:n=%d' % (n, ncomp),
+                if k == 'abs' and not abs_components:      # generic k-tables: the molecules of one source are correlated
+                    ctx.verdict('every_component_once', sorted(c for c, _ in mf[n]) == ['CH4', 'H2O'], cls='components:%sAbsorption' % pre,
+                                detail='Absorption components %r' % [c for c, _ in mf[n]], vector=vec)
+                    continue
+                ctx.verdict('product_over_components', same(pc, alone[k]), cls='components:%s%s:n=%d' % (pre, n, ncomp),
                             detail='product of the %d components of %s != T(%s alone)' % (ncomp, n, n), vector=vec)
                 if k == 'cia2':
-                    ctx.verdict('every_component_once', sorted(c for c, _ in mf[n]) == ['H2-H2', 'H2-He'], cls='components:CIA:pairs',
+                    ctx.verdict('every_component_once', sorted(c for c, _ in mf[n]) == ['H2-H2', 'H2-He'], cls='components:%sCIA:pairs' % pre,
                                 detail='CIA components %r' % [c for c, _ in mf[n]], vector=vec)
         except Machinery:
             raise
@@ -479,10 +504,10 @@ def all_sources(ctx, nsub, nperm):
         if ref is None:
             ref = T
             prod = np.prod([alone[k] for k in perm], axis=0)
-            ctx.verdict('product_over_sources_alone', same(T, prod), cls='alone:all-sources', detail='T(all seven sources) != product of each alone',
-                        vector=dict(full=True, added=perm))
-        ctx.verdict('order_independent', same(T, ref), cls='perm:all-sources', detail='insertion order %r gives a different T' % (perm,),
-                    vector=dict(full=True, added=perm))
+            ctx.verdict('product_over_sources_alone', same(T, prod), cls='alone:%sall-sources' % pre, detail='T(all seven sources) != product of each alone',
+                        vector=dict(full=True, added=perm, **extra))
+        ctx.verdict('order_independent', same(T, ref), cls='perm:%sall-sources' % pre, detail='insertion order %r gives a different T' % (perm,),
+                    vector=dict(full=True, added=perm, **extra))
     # the two CIA pairs against the documented weighting (table x mix1 x mix2 x n^2), evaluated from the fixtures
     m = build_full(['cia2'], params)
     m.model()
@@ -493,12 +518,12 @@ def all_sources(ctx, nsub, nperm):
     h2, he = chem.get_gas_mix_profile('H2'), chem.get_gas_mix_profile('He')
     sig = CIA_TAB[None, :] * (h2 * he)[:, None] + CIA_TAB2[None, :] * (h2 * h2)[:, None]
     tau, _, _ = tau_layers([(sig * (dens ** 2)[:, None]).tolist()], None, L, 10.0)
-    ctx.verdict('source_is_sum_of_weighted_species', same(alone['cia2'], np.exp(-np.array(tau))), cls='CIA:two-pairs',
-                detail='T(CIA, two pairs) != exp(-sum_pairs table x mix1 x mix2 x n^2 L)', vector=dict(full=True, added=['cia2']))
-    stored_table(ctx, params, alone)
+    ctx.verdict('source_is_sum_of_weighted_species', same(alone['cia2'], np.exp(-np.array(tau))), cls=pre + 'CIA:two-pairs',
+                detail='T(CIA, two pairs) != exp(-sum_pairs table x mix1 x mix2 x n^2 L)', vector=dict(full=True, added=['cia2'], **extra))
+    stored_table(ctx, params, alone, pre, abs_components, extra)
 
 
-def stored_table(ctx, params, alone):
+def stored_table(ctx, params, alone, pre='', abs_components=True, extra=None):
     """The per-source / per-component table that the program stores (taurex.util.output.store_contributions, used by
     taurex.py and Optimizer.generate_solution) obeys the same composition rules as the calls it is assembled from."""
     from taurex.util.output import store_contributions
@@ -507,8 +532,9 @@ def stored_table(ctx, params, alone):
     sub = ['abs', 'cia2', 'ray', 'hm', 'flat']
     m = build_full(sub, params)
     T = np.asarray(m.model()[2], dtype=float)
-    for bname, binner in (('native', NativeBinner()), ('flux', FluxBinner(wngrid=np.array([1200.0, 2800.0]), wngrid_width=np.array([800.0, 1600.0])))):
-        vec = dict(full=True, stored=bname, added=sub)
+    for bn, binner in (('native', NativeBinner()), ('flux', FluxBinner(wngrid=np.array([1200.0, 2800.0]), wngrid_width=np.array([800.0, 1600.0])))):
+        bname = pre + bn
+        vec = dict(full=True, stored=bname, added=sub, **(extra or {}))
         try:
             tab = store_contributions(binner, m, output_size=OutputSize.heavy)
         except Exception as e:   # noqa
@@ -525,7 +551,9 @@ def stored_table(ctx, params, alone):
             ctx.verdict('stored_source_equals_alone', same(st, alone[k]), cls='stored:%s:%s' % (bname, n),
                         detail='stored transmittance of %s differs from the model with that source alone' % n, vector=vec)
             comps = [np.asarray(v['native_tau'], dtype=float) for c, v in tab[n].items() if isinstance(v, dict) and 'native_tau' in v]
-            if comps:
+            if comps and k == 'abs' and not abs_components:
+                pass
+            elif comps:
                 ctx.verdict('product_over_components', same(np.prod(comps, axis=0), st), cls='stored:%s:%s:n=%d' % (bname, n, len(comps)),
                             detail='product of the %d stored components of %s != stored %s' % (len(comps), n, n), vector=vec)
             else:
@@ -536,9 +564,160 @@ def stored_table(ctx, params, alone):
                         detail='product of the stored sources != T(all)', vector=vec)
 
 
+# ----------------------------------------------------------------------------
+# spec/SourceLayers.tla: where a component has opacity (layer by layer) x how the molecular absorption is served
+# ----------------------------------------------------------------------------
+
+ORDERS = list(itertools.permutations(['abs', 'cia', 'third']))
+COMPS = [(0, 0), (0, 1), (1, 0), (1, 1), (2, 0)]            # H2O, CH4 | H2-He (temperature table), H2-N2 (partner) | third
+# classes every run realises (deviations from "opacity in every layer"); the rest of the export is sampled by seed
+MUST = [{}, {(0, 0): (0, 1)}, {(0, 1): (0, 1)}, {(1, 0): (0, 1)}, {(1, 1): (0, 1)}, {(2, 0): (0, 1)},
+        {(1, 0): (0, 1), (1, 1): (0, 1)}, {(0, 0): (0, 1), (0, 1): (0, 1)}, {(1, 0): (0, 1), (2, 0): (0, 1)},
+        {(0, 1): (0, 0)}, {(1, 1): (0, 0)}, {(1, 0): (1, 0)}, {(2, 0): (1, 0)}, {(0, 0): (1, 0), (1, 1): (0, 1)}]
+
+
+def spec_layers(ctx):
+    """design-level checks of SourceLayers + the exported input classes (evaluator validated on all of them)"""
+    q = ctx.tier == 'quick'
+    res = ctx.check_spec('source-layers', 'SourceLayers', 'MC_SourceLayers_quick.cfg', workers=1)
+    vecs = res.tagged('VEC')
+    if len(vecs) < 300:
+        raise Machinery('SourceLayers exported only %d input classes' % len(vecs))
+    # a ray skips a source that has no opacity in its TANGENT layer: refuted by the layer-by-layer clause
+    ctx.expect_refuted('source-layers-tangent-guard', 'SourceLayers', 'MC_SourceLayers_guard.cfg', 'LayerByLayer')
+    # correlated-k mean taken over the optical depth already accumulated and then added: refuted by the product rule
+    ctx.expect_refuted('source-layers-kmean-over-total', 'SourceLayers', 'MC_SourceLayers_kavg.cfg', 'ProductOverSources')
+    if not q:
+        ctx.check_spec('source-layers-all', 'SourceLayers', 'MC_SourceLayers_all.cfg')
+        ctx.check_spec('source-layers-support-guard', 'SourceLayers', 'MC_SourceLayers_support.cfg')      # the licensed guard
+        ctx.check_spec('source-layers-3A', 'SourceLayers', 'MC_SourceLayers_thoroughA.cfg')
+        ctx.check_spec('source-layers-3B', 'SourceLayers', 'MC_SourceLayers_thoroughB.cfg')
+        ctx.expect_refuted('source-layers-tangent-guard-components', 'SourceLayers', 'MC_SourceLayers_guardcomp.cfg', 'ProductOverComponents')
+        ctx.expect_refuted('source-layers-top-guard', 'SourceLayers', 'MC_SourceLayers_guardtop.cfg', 'LayerByLayer')
+        ctx.expect_refuted('source-layers-kmean-order', 'SourceLayers', 'MC_SourceLayers_kavgorder.cfg', 'OrderFree')
+    fxl.validate_evaluator(vecs)
+    return vecs
+
+
+def _key(v):
+    pat = tuple(tuple(tuple(c) for c in s) for s in v['a'])
+    kname = None if v['mode'] == 'xsec' else ('degenerate' if len(set(v['kc']['mul'])) == 1 else 'generic')
+    return pat, v['mode'], kname
+
+
+def _pattern(dev):
+    return tuple(tuple(dev.get((s, c), (1, 1)) for c in range(n)) for s, n in enumerate((2, 2, 1)))
+
+
+def layer_classes(ctx, vecs, nextra):
+    """Every selected input class on the real model: each source alone against the documented layer-by-layer
+    weighting evaluated from the fixtures; the integral of the code's own weighted opacity; the product over sources
+    in EVERY list order; sources in company; components; in both opacity modes."""
+    rng = random.Random(ctx.seed * 104729 + 11)
+    by = {}
+    for v in vecs:
+        by.setdefault(_key(v), v)
+    pats = sorted({k[0] for k in by})
+    chosen = [_pattern(d) for d in MUST]
+    rest = [p for p in pats if p not in chosen]
+    chosen += rest if nextra is None else rng.sample(rest, min(nextra, len(rest)))
+    env = fxl.OpacityEnv()
+    try:
+        for i, pat in enumerate(chosen):
+            for mi, (mode, kname) in enumerate((('xsec', None), ('ktables', 'generic'), ('ktables', 'degenerate'))):
+                if (pat, mode, kname) not in by:
+                    raise Machinery('SourceLayers did not export the input class %r / %s / %s' % (pat, mode, kname))
+                lc = fxl.LayerClass(pat, mode, kname, 'flat' if (i + mi) % 2 == 0 else 'hm')
+                env.enter(mode, kname)
+                one_layer_class(ctx, lc)
+                ctx.traces += 1
+    finally:
+        env.leave()
+        install_fixtures()
+
+
+def _T(m):
+    T = np.asarray(m.model()[2], dtype=float)
+    if T.shape != (fxl.NLR, len(fxl.WN)):
+        raise ValueError('model() returned a transmittance of shape %r' % (T.shape,))
+    return T
+
+
+def one_layer_class(ctx, lc):
+    vec = dict(layers=True, a=[list(map(list, s)) for s in lc.a], mode=lc.mode, kname=lc.kname, third=lc.third)
+    base = 'layers:' + lc.tag
+    try:
+        alone, at = {}, None
+        for s in lc.SRC:
+            m1 = lc.build([s])
+            alone[s] = _T(m1)
+            if at is None:
+                at = lc.atmosphere(m1)
+        seg = at['seg']
+        want = {}
+        for s in lc.SRC:
+            tabs, wts = lc.tables(s, at)
+            if tabs is None:
+                continue
+            want[s] = (tabs, wts)
+            exp = np.array(fxl.doc_trans(tabs, seg, wts, fxl.expneg))
+            ctx.verdict('layer_by_layer_weighting', same(alone[s], exp), cls='%s:%s' % (base, lc.name_of(s)),
+                        detail='T(%s alone) != documented integral of (cross-section x mixing ratio x density^p) over the layers from the '
+                               'tangent layer up; max diff %.3g' % (lc.name_of(s), float(np.abs(alone[s] - exp).max())), vector=vec)
+        m = lc.build(list(ORDERS[0]))
+        T0 = _T(m)
+        mc = proj_contrib(m.model_contrib())
+        mf = proj_full(m.model_full_contrib())
+        dens = at['n']
+        ctx.verdict('every_source_once', sorted(mc) == sorted(lc.name_of(s) for s in lc.SRC) and sorted(mf) == sorted(mc), cls=base,
+                    detail='sources %r / %r' % (sorted(mc), sorted(mf)), vector=vec)
+        for s in lc.SRC:
+            n = lc.name_of(s)
+            if n not in mc or n not in mf:
+                continue
+            ctx.verdict('source_in_company_equals_alone', same(mc[n], alone[s]), cls='%s:%s' % (base, n),
+                        detail='model_contrib()[%s] differs from the model with that source alone' % n, vector=vec)
+            # the integral of the code's OWN weighted opacity (also for sources without a fixture formula)
+            c = [x for x in m.contribution_list if x.name == n][0]
+            c.prepare(m, fxl.WN)
+            sig = np.asarray(c.sigma_xsec, dtype=float)
+            A = sig * ((dens ** 2) if s == 'cia' else dens).reshape((-1,) + (1,) * (sig.ndim - 1))
+            own = np.array(fxl.doc_trans([A.tolist()], seg, fxl.KREAL[lc.kname][0] if sig.ndim == 3 else None, fxl.expneg))
+            ctx.verdict('density_power', same(alone[s], own), cls='%s:%s' % (base, n),
+                        detail='T(%s) != exp(-sum_k sigma_k n_k^%d L_k) of its own weighted opacity' % (n, 2 if s == 'cia' else 1), vector=vec)
+            names = [cn for cn, _ in mf[n]]
+            ok_names = names == lc.components_of(s)
+            ctx.verdict('every_component_once', ok_names, cls='%s:%s' % (base, n), detail='components %r' % names, vector=vec)
+            if not ok_names:
+                continue
+            if s in want:
+                tabs, wts = want[s]
+                for ci, (cn, arr) in enumerate(mf[n]):
+                    expc = np.array(fxl.doc_trans([tabs[ci]], seg, wts, fxl.expneg))
+                    ctx.verdict('layer_by_layer_weighting', same(arr, expc), cls='%s:%s/%s' % (base, n, cn),
+                                detail='component %s of %s != documented integral over the layers from the tangent layer up' % (cn, n), vector=vec)
+            if s != 'abs' or lc.mode == 'xsec' or lc.kname == 'degenerate':
+                ctx.verdict('product_over_components', same(np.prod([arr for _, arr in mf[n]], axis=0), mc[n]), cls='%s:%s' % (base, n),
+                            detail='product of the components of %s != T(%s)' % (n, n), vector=vec)
+        prod = np.prod([alone[s] for s in lc.SRC], axis=0)
+        for order in ORDERS:
+            T = T0 if order == ORDERS[0] else _T(lc.build(list(order)))
+            o = '>'.join(order)
+            ctx.verdict('product_over_sources_alone', same(T, prod), cls='%s:%s' % (base, o),
+                        detail='T(list %s) != product of the transmittances of each source alone (max diff %.3g)' % (o, float(np.abs(T - prod).max())),
+                        vector=dict(vec, order=list(order)))
+            ctx.verdict('order_independent', same(T, T0), cls='%s:%s' % (base, o),
+                        detail='list order %s gives a different T than %s' % (o, '>'.join(ORDERS[0])), vector=dict(vec, order=list(order)))
+    except Machinery:
+        raise
+    except Exception as e:   # noqa -- an input inside the quantifier must not fail
+        ctx.verdict('history_no_exception', False, cls=base, detail='%s: %s' % (type(e).__name__, e), vector=vec)
+
+
 def run(ctx):
     q = ctx.tier == 'quick'
-    ctx.bounds = dict(spec='4 contributions (2+2+2+1 components), <= %d parameter changes, all interleavings of the three public operations' % (3 if q else 5),
+    ctx.bounds = dict(layers='SourceLayers: 3 sources (2+2+1 components) x per-layer support {none, some}^%d x {xsec, ktables degenerate/generic} x all 6 list orders' % (2 if q else 3),
+                      spec='4 contributions (2+2+2+1 components), <= %d parameter changes, all interleavings of the three public operations' % (3 if q else 5),
                       replay='%d TLC-simulated histories of depth 7 on a real 6-layer model' % (40 if q else 400))
     ctx.assumptions = ['fixture opacities are exact per layer (LayerOpacity/FixtureCIA)',
                        'a freshly built model at the current parameters is the reference for history independence',
@@ -547,12 +726,18 @@ def run(ctx):
     ctx.expect_refuted('compose-as-found', 'MC_Compose', 'MC_Compose_asbuilt.cfg', 'NoStaleRead')
     # design mutant: the source total aliases the (shared) component work array -> the sum read is the last component
     ctx.expect_refuted('compose-aliased-total', 'MC_Compose', 'MC_Compose_alias.cfg', 'NoStaleRead')
-    ctx.check_spec('product-rule', 'MC_Transmission', 'MC_Trans_acc_%s.cfg' % ctx.tier, timeout=1800)
+    # quick: the two C03 invariants of the acc family only (C01 checks the whole family on the bigger quick domain)
+    ctx.check_spec('product-rule', 'MC_Transmission', 'MC_Trans_acc_c03_quick.cfg' if q else 'MC_Trans_acc_thorough.cfg', timeout=1800)
+    vecs = spec_layers(ctx)
     install_fixtures()
     try:
         weighting(ctx)
         hazes(ctx)
         all_sources(ctx, 14 if q else 60, 4 if q else 30)
+        all_sources(ctx, 10 if q else 40, 3 if q else 20, 'ktables', 'generic')
+        if not q:
+            all_sources(ctx, 30, 10, 'ktables', 'degenerate')
+        layer_classes(ctx, vecs, 12 if q else None)
         res = core.run_tlc('MC_Compose', 'SIM_Compose.cfg', workers=1, simulate='num=%d' % (40 if q else 400),
                            depth=80, seed=ctx.seed + 1)
         ctx.add_tlc('simulate-behaviours', res, counts=False)
@@ -578,10 +763,25 @@ def replay(ctx, violations):
         done = set()
         for v in violations:
             vec = v['vector']
-            if vec.get('full'):
-                if 'full' not in done:
-                    done.add('full')
-                    all_sources(ctx, 14, 4)
+            if vec.get('layers'):
+                k = repr((vec['a'], vec['mode'], vec['kname'], vec['third']))
+                if k not in done:
+                    done.add(k)
+                    env = fxl.OpacityEnv()
+                    try:
+                        env.enter(vec['mode'], vec['kname'])
+                        one_layer_class(ctx, fxl.LayerClass(vec['a'], vec['mode'], vec['kname'], vec['third']))
+                    finally:
+                        env.leave()
+                        install_fixtures()
+            elif vec.get('full'):
+                k = 'full' + str(vec.get('kname'))
+                if k not in done:
+                    done.add(k)
+                    if vec.get('opacity') == 'ktables':
+                        all_sources(ctx, 10, 3, 'ktables', vec['kname'])
+                    else:
+                        all_sources(ctx, 14, 4)
             elif 'hist' in vec:
                 k = repr(vec)
                 if k not in done:
